@@ -13,26 +13,45 @@
    emits the trace lines the instrumented real run emits and the C10 monitor
    (PollerOps) judges them.
 
-   kind = which algorithm:  "select", "epoll", "poll" = the pinned Poll, whose
+   A descriptor is registered either as its socket object or, for the objects
+   in IntCapable, by number (a plain int, as File/Serial/Notify and foreign
+   code do): the environment decides at the first registration of the object
+   (operations "addri"/"addwi") and sticks to it.  A number is all the poller
+   has of such a descriptor: the fixed Poll cannot tell it is stale (POLLNVAL
+   -> _disconnect as before), Select hits EBADF instead of ValueError (and
+   preens), late discard still finds the number.  While a descriptor that was
+   registered by number is closed but not discarded, its number is not handed
+   out again (the registration *is* the number: what is reported for it then is
+   by definition addressed to the registering component; not a case of C10).
+
+   kind = which algorithm:  "select", "epoll", "pollfix" = Poll with the
+   stale-entry check (in /repo since 123c094).  Defect generators (never
+   oracles; TLC must flag them): "poll" = the Poll of the pinned tree, whose
    _process trusts the fileno -> object map even when the object was closed
-   and its number now belongs to another descriptor (defect generator: TLC
-   must find C10.ghost_fd there), "pollfix" = Poll with the stale-entry check
-   of fixes/C10-poll-stale-map.diff.  A generator, never an oracle.        *)
+   and its number now belongs to another descriptor (C10.ghost_fd);
+   "selectesc" = a Select whose _preenDescriptors lets the EBADF of a closed
+   int descriptor escape: the handler raises (an `exception` event = an
+   "error" line) on every iteration, the dead descriptor is never discarded
+   and nothing else is reported any more (C10.spurious, C10.missing).       *)
 EXTENDS PollerOps, Naturals, TLC, SequencesExt
 
 CONSTANTS MaxSteps,   \* length of the environment history
           Kinds,      \* algorithms explored
           RegObj,     \* objects the environment registers with the poller
+          IntCapable, \* objects the environment may register by number (plain int)
           Monitor     \* BOOLEAN: run the emitted lines through the C10 monitor (off when only
                       \* histories and their lines are enumerated for the replay)
 
 Peer(o) == CASE o = 1 -> 2 [] o = 2 -> 1 [] o = 3 -> 4 [] o = 4 -> 3
 Chan(o) == <<"c1", "c2", "c3", "c4">>[o]
-PName(kd) == IF kd = "pollfix" THEN "poll" ELSE kd
+PName(kd) == IF kd = "pollfix" THEN "poll" ELSE IF kd = "selectesc" THEN "select" ELSE kd
+IsSelect(kd) == kd \in {"select", "selectesc"}
+Generators == {"poll", "selectesc"}
 IsPoll(kd) == kd \in {"poll", "pollfix"}
 
 VARIABLES kind,
-          ks,      \* kernel: [open, gone, fd, inq]
+          ks,      \* kernel: [open, gone, fd, inq] + how the environment handles each object:
+                   \* ints / objs = registered (so far) by number / as socket object
           ps,      \* poller: [rd, wr, tgt, kmask, kmap, emask]
           erd, ewr,\* the environment's own view of what it registered (guards only)
           P, bad,  \* monitor state, first failed clause
@@ -46,7 +65,8 @@ vars == <<kind, ks, ps, erd, ewr, P, bad, hist, out, lastcore, lastexp, lastexc,
 (* kernel *)
 Nums == 1..4
 K0 == [open |-> {1, 2}, gone |-> {}, fd |-> [o \in Obj |-> IF o <= 2 THEN o ELSE 0],
-       inq |-> [o \in Obj |-> 0]]        \* inq: 0 empty, 1 some data, 2 sender blocked
+       inq |-> [o \in Obj |-> 0],       \* inq: 0 empty, 1 some data, 2 sender blocked
+       ints |-> {}, objs |-> {}]
 FreeNums(k) == Nums \ {k.fd[o] : o \in k.open}
 Lowest(S) == CHOOSE n \in S : \A m \in S : n <= m
 KOpenB(k) == LET n3 == Lowest(FreeNums(k))
@@ -73,11 +93,12 @@ BaseRemW(s, o) == [s EXCEPT !.wr = @ \ {o}, !.tgt = [@ EXCEPT ![o] = IF o \in s.
 Mask(s, o) == (IF o \in s.rd THEN {"in"} ELSE {}) \cup (IF o \in s.wr THEN {"out"} ELSE {})
 GetTarget(s, o) == IF s.tgt[o] # "" THEN s.tgt[o] ELSE "parent"
 
-(* _updateRegistration(fd): fileno() of a closed socket object is -1 (n = 0) *)
+(* _updateRegistration(fd): fileno() of a closed socket object is -1 (n = 0); a
+   descriptor registered by number is that number, open or not *)
 UpdReg(kd, k, s, o) ==
-  LET n == IF o \in k.open THEN k.fd[o] ELSE 0
+  LET n == IF o \in k.open \/ o \in k.ints THEN k.fd[o] ELSE 0
       m == Mask(s, o)
-  IN IF kd = "select" THEN s
+  IN IF IsSelect(kd) THEN s
      ELSE IF IsPoll(kd) THEN
         IF m # {} THEN   \* the environment never (re)registers a closed object: n # 0
            [s EXCEPT !.kmask = [@ EXCEPT ![n] = m], !.kmap = [@ EXCEPT ![n] = o]]
@@ -122,8 +143,9 @@ Process(kd, k, acc, n, holder, rev) ==
                               !.kmask = [@ EXCEPT ![n] = {}],
                               !.emask = [x \in Obj |-> IF x = holder THEN {} ELSE @[x]]]
   IN IF rev = {} \/ obj = 0 THEN acc
-     ELSE IF kd = "pollfix" /\ obj # holder THEN
+     ELSE IF kd = "pollfix" /\ obj # holder /\ obj \notin k.ints THEN
         <<drop(s), acc[2]>>        \* stale entry: the object was closed, the number is nobody's or somebody else's
+                                   \* (_isStale cannot tell for a plain int)
      ELSE IF rev \cap {"hup", "nval"} # {} /\ "in" \notin rev THEN
         <<drop(s), acc[2] \cup {<<"disconnect", obj, GetTarget(s, obj)>>}>>
      ELSE <<s, acc[2] \cup (IF "in" \in rev THEN {<<"read", obj, GetTarget(s, obj)>>} ELSE {})
@@ -145,9 +167,11 @@ PollFrom(kd, k, acc, n) ==
   ELSE CHOOSE res \in {PollFrom(kd, k, a, n + 1) : a \in {OneNum(kd, k, acc, n)}} : TRUE
 
 PollIter(kd, k, s) ==
-  IF kd = "select" THEN
+  IF IsSelect(kd) THEN
      LET regd == s.rd \cup s.wr
-     IN IF regd \ k.open # {} THEN <<DiscardAll(s, regd \ k.open), {}>>   \* ValueError -> _preenDescriptors
+     IN IF kd = "selectesc" /\ (regd \ k.open) \cap k.ints # {} THEN
+           <<s, {<<"error", 0, "exception">>}>>      \* EBADF -> preen -> the probe's OSError escapes
+        ELSE IF regd \ k.open # {} THEN <<DiscardAll(s, regd \ k.open), {}>>   \* ValueError / EBADF -> _preenDescriptors
         ELSE <<s, {<<"write", o, GetTarget(s, o)>> : o \in {x \in s.wr : Wrbl(k, x)}}
                   \cup {<<"read", o, GetTarget(s, o)>> : o \in {x \in s.rd : Rdbl(k, x)}}>>
   ELSE PollFrom(kd, k, <<s, {}>>, 1)
@@ -196,14 +220,24 @@ Init == /\ kind \in Kinds /\ ks = K0 /\ ps = S0 /\ erd = {} /\ ewr = {}
                r == Run(P0, lines, "")
            IN P = (IF Monitor THEN r[1] ELSE [off |-> TRUE]) /\ bad = r[2] /\ out = lines
 
-AddReader(o) ==
-  /\ o \in RegObj \cap ks.open /\ o \notin erd
-  /\ Step(<<"addr", o>>, <<Line("addr", "", o, Chan(o), 0, 0, 0, 0)>>, ks, AddR(kind, ks, ps, o),
-          erd \cup {o}, ewr, FALSE)
-AddWriter(o) ==
-  /\ o \in RegObj \cap ks.open /\ o \notin ewr
-  /\ Step(<<"addw", o>>, <<Line("addw", "", o, Chan(o), 0, 0, 0, 0)>>, ks, AddW(kind, ks, ps, o),
-          erd, ewr \cup {o}, FALSE)
+(* i: register by number.  The line says so in field a (information only).
+   first: this operation may be the one that decides (only addReader does, to
+   keep the number of histories down; addWriter follows the decision taken). *)
+HowOK(o, i, first) == IF i THEN o \in IntCapable /\ o \notin ks.objs /\ (first \/ o \in ks.ints)
+                      ELSE o \notin ks.ints
+How(k, o, i) == IF i THEN [k EXCEPT !.ints = @ \cup {o}] ELSE [k EXCEPT !.objs = @ \cup {o}]
+AddReader(o, i) ==
+  /\ o \in RegObj \cap ks.open /\ o \notin erd /\ HowOK(o, i, TRUE)
+  /\ LET k1 == How(ks, o, i)
+     IN Step(<<IF i THEN "addri" ELSE "addr", o>>, <<Line("addr", "", o, Chan(o), IF i THEN 1 ELSE 0, 0, 0, 0)>>,
+             k1, AddR(kind, k1, ps, o), erd \cup {o}, ewr, FALSE)
+AddWriter(o, i) ==
+  /\ o \in RegObj \cap ks.open /\ o \notin ewr /\ HowOK(o, i, FALSE)
+  /\ LET k1 == How(ks, o, i)
+     IN Step(<<IF i THEN "addwi" ELSE "addw", o>>, <<Line("addw", "", o, Chan(o), IF i THEN 1 ELSE 0, 0, 0, 0)>>,
+             k1, AddW(kind, k1, ps, o), erd, ewr \cup {o}, FALSE)
+(* a descriptor registered by number was closed and is still registered (environment's view) *)
+DeadInt == \E o \in ks.ints : o \notin ks.open /\ o \in erd \cup ewr
 RemoveReader(o) ==
   /\ o \in erd \cap ks.open
   /\ Step(<<"remr", o>>, <<OpLine("remr", o)>>, ks, RemR(kind, ks, ps, o), erd \ {o}, ewr, FALSE)
@@ -234,15 +268,16 @@ DiscardThenClose(o) ==
           OnClose(Disc(kind, ks, ps, o), o), erd \ {o}, ewr \ {o}, FALSE)
 OpenLines(k) == <<Line("open", "", 3, "", k.fd[3], 0, 0, 0), Line("open", "", 4, "", k.fd[4], 0, 0, 0)>>
 OpenB ==
-  /\ BNew(ks)
+  /\ BNew(ks) /\ ~DeadInt
   /\ LET k1 == KOpenB(ks) IN Step(<<"openb", 0>>, OpenLines(k1), k1, ps, erd, ewr, FALSE)
 CloseReopen(o) ==      \* no iteration between the close and the open: 3 takes o's number
-  /\ BNew(ks) /\ o \in ks.open
+  /\ BNew(ks) /\ o \in ks.open /\ ~DeadInt /\ ~(o \in ks.ints /\ o \in erd \cup ewr)
   /\ LET k1 == KOpenB(KClose(ks, o))
      IN Step(<<"creopen", o>>, <<OpLine("close", o)>> \o OpenLines(k1), k1, OnClose(ps, o), erd, ewr,
              o \in erd \cup ewr)
 
-Next == \/ \E o \in Obj : \/ AddReader(o) \/ AddWriter(o) \/ RemoveReader(o) \/ RemoveWriter(o)
+Next == \/ \E o \in Obj : \/ \E i \in BOOLEAN : AddReader(o, i) \/ AddWriter(o, i)
+                          \/ RemoveReader(o) \/ RemoveWriter(o)
                           \/ Discard(o) \/ Send(o) \/ Drain(o) \/ Fill(o)
                           \/ CloseWithoutDiscard(o) \/ DiscardThenClose(o) \/ CloseReopen(o)
         \/ OpenB
@@ -253,20 +288,20 @@ Spec == Init /\ [][Next]_vars
 TypeOK == /\ kind \in Kinds /\ ks.open \subseteq Obj /\ ps.rd \subseteq Obj /\ ps.wr \subseteq Obj
           /\ bad \in STRING /\ erd \subseteq Obj /\ ewr \subseteq Obj
 
-(* C10 as the monitor's verdict on every behaviour of the model.  The pinned
-   Poll ("poll") is in the model as a defect generator: it is exempt here and
-   must reach bad = "C10.ghost_fd" (checked by the driver on the state dump,
-   and by TLC itself with ConformsAll in MC_Poller_stale.cfg). *)
-Conforms == kind = "poll" \/ bad = ""
+(* C10 as the monitor's verdict on every behaviour of the model.  The defect
+   generators are exempt here and must reach bad # "" (checked by the driver
+   on the state dump, and by TLC itself with ConformsAll in
+   MC_Poller_stale.cfg / MC_Poller_preen.cfg). *)
+Conforms == kind \in Generators \/ bad = ""
 ConformsAll == bad = ""
 
 (* C10 stated directly on the model (independent of the monitor), against the
    environment's own view of what it registered: outside the recovery
    iteration, the events for open, not hung-up objects are exactly the
    registered-and-ready ones, addressed to the registering channel *)
-PollExact == lastexc \/ lastcore = lastexp
+PollExact == kind = "selectesc" \/ lastexc \/ lastcore = lastexp
 (* nothing but the one _disconnect for a closed object *)
-NoGhost == kind = "poll" \/ \A e \in lastev : e[2] \in ks.open \/ e[1] = "disconnect"
+NoGhost == kind \in Generators \/ \A e \in lastev : e[2] \in ks.open \/ e[1] = "disconnect"
 (* the kernel registration mirrors the interest lists for every live registered object *)
 Mirror == \A o \in ks.open \cap (ps.rd \cup ps.wr) :
              /\ ps.tgt[o] = Chan(o)
